@@ -14,6 +14,7 @@ from vsc.model.constraint_model import ConstraintModel
 from vsc.model.constraint_scope_model import ConstraintScopeModel
 from vsc.model.constraint_soft_model import ConstraintSoftModel
 from vsc.model.constraint_unique_model import ConstraintUniqueModel
+from vsc.model.expr_partselect_model import ExprPartselectModel
 from vsc.model.dist_weight_expr_model import DistWeightExprModel
 from vsc.model.expr_array_subscript_model import ExprArraySubscriptModel
 from vsc.model.expr_bin_model import ExprBinModel
@@ -247,6 +248,15 @@ class ConstraintCopyBuilder(ModelVisitor):
             self._expr = e
         else:
             super().visit_expr_literal(e)
+            
+    def visit_expr_partselect(self, e):
+        if self.do_copy_level > 0:
+            self._expr = ExprPartselectModel(
+                self.expr(e.lhs),
+                self.expr(e.upper),
+                None if e.lower is None else self.expr(e.lower))
+        else:
+            super().visit_expr_partselect(e)
             
     def visit_expr_unary(self, e : ExprUnaryModel):
         if self.do_copy_level > 0:
